@@ -40,6 +40,7 @@ func names15(dg []int) []string {
 	}
 	return out
 }
+
 var kindNames = []string{"Nil", "Bool", "Int", "Float", "String", "List", "Object"}
 
 // tagOf is the pure function used in Map callbacks: containers are returned as they are
